@@ -61,6 +61,8 @@ type Op struct {
 	How     int    `json:"how,omitempty"`     // touch: 0 Chtimes, 1 chmod and back, 2 rewrite in place (same name, content and mode; new inode)
 	Src     int    `json:"src,omitempty"`     // append: the event whose bytes are appended
 	FMode   int    `json:"fmode,omitempty"`   // chmod: the mode the file is left with
+	Obj     int    `json:"obj,omitempty"`     // w: 0 a fresh *Event, 1 / 2 one of two Event objects the producer recycles (bytes replaced with FormattedAs)
+	Repeat  bool   `json:"repeat,omitempty"`  // w with Obj > 0: hand the object in again as it is (same bytes, same id): it must be written again
 }
 type Case struct {
 	ID      int    `json:"id"`
@@ -620,6 +622,12 @@ func execSeq(c Case, root string) (res result) {
 	last := int64(0) // last reading fed to the model
 	nextKey := 1
 	rotations, extrens, ambiguous, certainYes, certainNo, removals, tampers := 0, 0, 0, 0, 0, 0, 0
+	mlc := int64(0) // LastCreated as the MODEL has it: the open() readings fed so far (never taken from the sink outside a call's bracket)
+	var objs [3]*el.Event
+	var objLast [3]struct {
+		key, size int
+		ok        bool
+	}
 	lastWasRm := false
 	var steps []step
 	var sigb strings.Builder
@@ -632,21 +640,31 @@ func execSeq(c Case, root string) (res result) {
 			if prev != nil {
 				nfiles = len(prev.Files)
 			}
-			op = genOp(r, c, fs, open, nextKey, lastWasRm, nfiles)
+			sinceUs := int64(0)
+			if open {
+				sinceUs = (nowNs() - t0 - mlc) / 1000
+			}
+			op = genOp(r, c, fs, open, nextKey, lastWasRm, nfiles, sinceUs)
 			res.c.Ops = append(res.c.Ops, op)
 		} else {
 			op = c.Ops[i]
 		}
-		fmt.Fprintf(&sigb, "%s%d.%d,", op.K, op.Size, op.Ctx)
+		fmt.Fprintf(&sigb, "%s%d.%d.%d%v,", op.K, op.Size, op.Ctx, op.Obj, op.Repeat)
 		switch op.K {
 		case "w":
-			if nextKey > 127 {
-				panic("too many writes in one case")
+			key, size := 0, op.Size
+			if op.Repeat && op.Obj > 0 && objLast[op.Obj].ok && !op.NoFmt {
+				key, size = objLast[op.Obj].key, objLast[op.Obj].size // the very same event again
+				res.stats["same_event_object_handed_in_again"]++
+			} else {
+				if nextKey > 127 {
+					panic("too many writes in one case")
+				}
+				key = nextKey
+				nextKey++
 			}
-			key := nextKey
-			nextKey++
-			data := payload(key, op.Size)
-			if op.Size > 0 {
+			data := payload(key, size)
+			if size > 0 {
 				tk.byKey[byte(key)] = data
 				tk.idOf[byte(key)] = key
 			} else {
@@ -657,18 +675,30 @@ func execSeq(c Case, root string) (res result) {
 			}
 			// the event carries the sink's format (unless NoFmt) and a decoy under another name whose bytes must never reach a file
 			pristine := append([]byte(nil), data...)
-			ev := &el.Event{Formatted: map[string][]byte{"decoy-format": {0xFE, 0xFD, 0xFC}}}
-			if !op.NoFmt {
-				ev.Formatted[fmtKey] = data
-			} else if fmtKey != el.JSONFormat {
-				ev.Formatted[el.JSONFormat] = []byte{0xFB, 0xFA}
+			ev := &el.Event{}
+			if op.Obj > 0 {
+				if objs[op.Obj] == nil {
+					objs[op.Obj] = &el.Event{}
+				}
+				ev = objs[op.Obj] // a recycled object: the producer replaces its bytes before each call
+				res.stats["recycled_event_objects"]++
 			}
+			ev.FormattedAs("decoy-format", []byte{0xFE, 0xFD, 0xFC})
+			if !op.NoFmt {
+				ev.FormattedAs(fmtKey, data)
+			} else {
+				delete(ev.Formatted, fmtKey)
+				if fmtKey != el.JSONFormat {
+					ev.FormattedAs(el.JSONFormat, []byte{0xFB, 0xFA})
+				}
+			}
+			objLast[op.Obj].key, objLast[op.Obj].size, objLast[op.Obj].ok = key, size, !op.NoFmt && size > 0
 			lcPrev := fs.LastCreated
 			before := stampsOf(prev)
 			var eLo, eHi int64
 			tB := after(last+t0) - t0
 			if open {
-				eLo = int64(time.Since(lcPrev))
+				eLo = tB - mlc
 			}
 			pctx, pcancel := ctxOf(op.Ctx)
 			_, err := fs.Process(pctx, ev)
@@ -677,10 +707,10 @@ func execSeq(c Case, root string) (res result) {
 			if !op.NoFmt && !bytes.Equal(ev.Formatted[fmtKey], pristine) {
 				panic("the sink changed the caller's formatted bytes")
 			}
-			if open {
-				eHi = int64(time.Since(lcPrev))
-			}
 			tA := nowNs() - t0
+			if open {
+				eHi = tA - mlc
+			}
 			if !open {
 				eLo, eHi = 0, tA-tB
 			}
@@ -706,7 +736,14 @@ func execSeq(c Case, root string) (res result) {
 			}
 			var fd Feed
 			cur := tB
+			// a reading taken from LastCreated / a file name is only believed when it lies inside this call's bracket: a
+			// LastCreated that open() did not refresh must not be fed to the model as if it had
+			inB := func(v int64) bool { return v >= tB && v <= tA }
 			obsOr := func(v int64, have bool) int64 {
+				if have && !inB(v) {
+					have = false
+					res.stats["reading_outside_the_calls_bracket_not_fed"]++
+				}
 				if have {
 					cur = v
 				} else {
@@ -723,7 +760,7 @@ func execSeq(c Case, root string) (res result) {
 			default:
 				fd.T[0] = obsOr(lcAfter, !rotated && err == nil)
 			}
-			lcAt := rel(lcPrev)
+			lcAt := mlc
 			if !open {
 				lcAt = fd.T[0]
 			}
@@ -762,6 +799,14 @@ func execSeq(c Case, root string) (res result) {
 			fd.T[3] = obsOr(lcAfter, rotated && err == nil && !special)
 			fd.T[4] = obsOr(0, false)
 			last = max64(cur, tA)
+			if !op.NoFmt && !special {
+				if !open {
+					mlc = fd.T[0]
+				}
+				if rotated && err == nil {
+					mlc = fd.T[3]
+				}
+			}
 			if rotated && !op.NoFmt {
 				rotations++
 			}
@@ -786,17 +831,24 @@ func execSeq(c Case, root string) (res result) {
 				res.stats["writes_without_the_sinks_format"]++
 				break
 			}
-			steps = append(steps, step{fmt.Sprintf("XOp (Write %s %s %s %s %s %s %s nofault)", hc.N(key), hc.Z(int64(op.Size)),
+			steps = append(steps, step{fmt.Sprintf("XOp (Write %s %s %s %s %s %s %s nofault)", hc.N(key), hc.Z(int64(size)),
 				hc.Z(fd.T[0]), hc.Z(fd.T[1]), hc.Z(fd.T[2]), hc.Z(fd.T[3]), hc.Z(fd.T[4])), o})
 			res.obs, res.feeds, prev = append(res.obs, o), append(res.feeds, fd), o
 		case "reopen":
-			after(last + t0)
+			tB := after(last+t0) - t0
 			err := fs.Reopen()
 			tA := nowNs() - t0
 			o := observe(err == nil, err)
 			t := rel(fs.LastCreated)
 			if special || err != nil {
 				t = tA
+			} else if t < tB || t > tA {
+				// Reopen always opens: its createTime lies inside the call. A LastCreated from before is not that reading.
+				t = tB + 1
+				res.stats["reading_outside_the_calls_bracket_not_fed"]++
+			}
+			if !special && err == nil {
+				mlc = t
 			}
 			last = max64(t, tA)
 			if !special {
@@ -840,7 +892,7 @@ func execSeq(c Case, root string) (res result) {
 			if !special {
 				if op.K == "newsink" {
 					fs = newSink() // the old object (and its descriptor) is simply dropped
-					open, activeName = false, ""
+					open, activeName, mlc = false, "", 0
 					lit = "XNewSink " + hc.Z(t)
 					tampers++
 				} else if prev != nil && op.Pos < len(prev.Files) {
@@ -1033,7 +1085,7 @@ func genCfg(r *hc.Rand, timeCases bool) Cfg {
 }
 
 // one operation, chosen knowing the sink's exported counters (boundary bias)
-func genOp(r *hc.Rand, cs Case, fs *el.FileSink, open bool, nextKey int, lastWasRm bool, nfiles int) Op {
+func genOp(r *hc.Rand, cs Case, fs *el.FileSink, open bool, nextKey int, lastWasRm bool, nfiles int, sinceUs int64) Op {
 	c := cs.Cfg
 	if cs.Rm && nextKey >= 2 {
 		// histories with deletions from outside: the interesting part is the next open() — Reopen or a rotating write
@@ -1063,8 +1115,17 @@ func genOp(r *hc.Rand, cs Case, fs *el.FileSink, open bool, nextKey int, lastWas
 		pos := []int{0, nfiles - 1, r.Intn(nfiles)}[r.Intn(3)]
 		return Op{K: "touch", Pos: pos, When: r.Intn(3), How: []int{0, 0, 0, 1, 2}[r.Intn(5)]}
 	}
-	x := r.Intn(100)
 	timed := c.MaxDurMs > 0
+	if timed && open && nextKey >= 2 {
+		// Reopen (or a new sink object) BETWEEN the pauses: LastCreated must restart there
+		if r.Chance(1, 8) {
+			return Op{K: "reopen"}
+		}
+		if r.Chance(1, 40) {
+			return Op{K: "newsink"}
+		}
+	}
+	x := r.Intn(100)
 	switch {
 	case x < 58 || nextKey < 2:
 		size := 1 + r.Intn(200)
@@ -1096,6 +1157,10 @@ func genOp(r *hc.Rand, cs Case, fs *el.FileSink, open bool, nextKey int, lastWas
 		if (nextKey < 2 && r.Chance(1, 6)) || (due && r.Chance(1, 4)) || r.Chance(1, 20) {
 			return Op{K: "w", Size: 0, Ctx: ctxKind, NilVal: r.Bool()}
 		}
+		// the producer recycles Event objects: the same object with new bytes, or handed in again unchanged
+		if r.Chance(1, 8) {
+			return Op{K: "w", Size: size, Ctx: ctxKind, Obj: 1 + r.Intn(2), Repeat: r.Chance(1, 3)}
+		}
 		return Op{K: "w", Size: size, Ctx: ctxKind}
 	case x < 70:
 		return Op{K: "reopen"}
@@ -1107,11 +1172,7 @@ func genOp(r *hc.Rand, cs Case, fs *el.FileSink, open bool, nextKey int, lastWas
 		}
 		// aim at an elapsed time around MaxDuration
 		target := []int64{20000, 28500, 31500, 45000, 5000}[r.Intn(5)]
-		els := int64(0)
-		if open {
-			els = int64(time.Since(fs.LastCreated) / time.Microsecond)
-		}
-		p := target - els
+		p := target - sinceUs // measured from the open the MODEL knows of: the pauses before and after a Reopen each stay below / go above MaxDuration on their own
 		if p < 0 {
 			p = int64(r.Intn(2000))
 		}
@@ -1182,9 +1243,11 @@ func execConc(c Case, root string) (res result) {
 				}
 			}()
 			<-start
+			recycled := &el.Event{} // every writer recycles one Event object: new bytes before each call
 			for _, e := range evs[w] {
 				pctx, pcancel := ctxOf((e.id * 7) % 12) // kinds 7..11 are Background
-				if _, err := fs.Process(pctx, &el.Event{Formatted: map[string][]byte{el.JSONFormat: e.data}}); err == nil {
+				recycled.FormattedAs(el.JSONFormat, e.data)
+				if _, err := fs.Process(pctx, recycled); err == nil {
 					acked[w] = append(acked[w], e.id)
 				}
 				pcancel()
@@ -1329,6 +1392,7 @@ func childMain(cfgJSON string, dir string) {
 	fs := &el.FileSink{Path: dir, FileName: c.FileName, MaxBytes: c.MaxBytes, MaxFiles: c.MaxFiles,
 		TimestampOnlyOnRotate: c.TsOnly, Mode: os.FileMode(c.Mode)}
 	ackPipe := os.NewFile(3, "acks")
+	recycled := &el.Event{} // the producer recycles one Event object
 	if c.FsizeLimit > 0 {
 		// write(2) starts failing (EFBIG, possibly after a short write) once a file reaches the limit
 		signal.Ignore(syscall.SIGXFSZ)
@@ -1338,7 +1402,8 @@ func childMain(cfgJSON string, dir string) {
 		}
 		for i := 1; i <= c.FsizeEvents; i++ {
 			pctx, pcancel := ctxOf(i % 9)
-			_, err := fs.Process(pctx, &el.Event{Formatted: map[string][]byte{el.JSONFormat: linePayload(i)}})
+			recycled.FormattedAs(el.JSONFormat, linePayload(i))
+			_, err := fs.Process(pctx, recycled)
 			pcancel()
 			b := byte('a')
 			if err != nil {
@@ -1352,7 +1417,8 @@ func childMain(cfgJSON string, dir string) {
 	}
 	for i := 1; ; i++ {
 		pctx, pcancel := ctxOf(i % 9)
-		_, err := fs.Process(pctx, &el.Event{Formatted: map[string][]byte{el.JSONFormat: linePayload(i)}})
+		recycled.FormattedAs(el.JSONFormat, linePayload(i))
+		_, err := fs.Process(pctx, recycled)
 		pcancel()
 		if err != nil {
 			fmt.Fprintf(os.Stderr, "child: Process %d: %v\n", i, err)
